@@ -3,6 +3,7 @@
 R15.1 every cache-file write (save_value call) happens inside a `with <key lock>` region;
 R15.2 the existence test that guards a load and that load share one critical section;
 R15.3 the lock identity is the same function of the cache file path in all entry points.
+R15.8 whether an entry is stored is decided while holding the key lock;  R15.9 (from C14 R14.11) a refused value does not truncate the entry.
 """
 from __future__ import annotations
 
